@@ -136,7 +136,7 @@ pub fn one_point_to(which: &str, cache: &RefCache, mg: &MoveGenerator, rep: &Rep
         format!("{} ({:?}) depth {}: deadline at node(s) {} but no answer after {} s of CPU time (the search does not stop)", name, fen, d, ns_text, crate::watch::LIMIT_S),
         args.clone(),
     );
-    let r = guard(|| {
+    let run_once = || guard(|| {
         let mut s = Searcher::new();
         let rep0 = s.verif_repetition_len();
         let mut hit = false;
@@ -168,6 +168,31 @@ pub fn one_point_to(which: &str, cache: &RefCache, mg: &MoveGenerator, rep: &Rep
         let deeper = crate::search::verif::tt_cutoffs().1;
         (hit, worst_overrun, rep0, rep_changed, fin, deeper, work)
     });
+    // CPU time is read per thread, but a loaded or virtualised host can still inflate it (stolen
+    // time, cold caches): a search that looks too expensive is measured again on a fresh searcher,
+    // up to four more times, and the cheapest measurement counts. Work that is really there costs
+    // its time in every run.
+    let mut r = run_once();
+    if which == "C07" {
+        for _ in 0..4 {
+            let too_costly = match &r {
+                Ok((_, _, _, _, _, _, Some((cpu_us, visited, _)))) => *cpu_us > WORK_PER_NODE_US * *visited + WORK_BASE_MS * 1000,
+                _ => false,
+            };
+            if !too_costly {
+                break;
+            }
+            let again = run_once();
+            let better = match (&again, &r) {
+                (Ok((_, _, _, _, _, _, Some((c2, v2, _)))), Ok((_, _, _, _, _, _, Some((c1, v1, _))))) => (*c2 as u128) * (*v1 as u128) < (*c1 as u128) * (*v2 as u128),
+                (Err(_), _) => true,
+                _ => false,
+            };
+            if better {
+                r = again;
+            }
+        }
+    }
     match r {
         Err(e) => {
             rep.violation(format!("{} fen={} depth={} at={} panic", which, fen, d, ns_text), format!("{} ({:?}) depth {} interrupted at node(s) {}: {}", name, fen, d, ns_text, e), args, J::Null);
@@ -368,6 +393,177 @@ pub fn history_point(rep: &Report, mg: &MoveGenerator, name: &str, fen: &str, b:
     }
 }
 
+
+// ---------------------------------------------------------------------------------------------
+// C07, a searcher that has thought for a long time. Everything above starts from a fresh
+// Searcher; what earlier searches of the same game left behind (a table of millions of entries,
+// filled killer and history tables) must not make a short search late: housekeeping whose cost
+// grows with that state (trimming, ageing, rebuilding the table) and that never looks at the
+// clock is work after the deadline just the same.
+
+/// Middlegames on which long thinks fill the table quickly
+pub const BIG_STATE_POSITIONS: &[(&str, &str)] = &[
+    ("italian middlegame", "r1bq1rk1/ppp2ppp/2np1n2/2b1p3/2B1P3/2PP1N2/PP3PPP/RNBQ1RK1 w - - 0 7"),
+    ("kiwipete", "r3k2r/p1ppqpb1/bn2pnp1/3PN3/1p2P3/2N2Q1p/PPPBBPPP/R3K2R w KQkq - 0 1"),
+    ("open sicilian", "r1bqkb1r/pp2pppp/2np1n2/8/3NP3/2N5/PPP2PPP/R1BQKB1R w KQkq - 2 6"),
+    ("start position", "rnbqkbnr/pppppppp/8/8/8/8/PPPPPPPP/RNBQKBNR w KQkq - 0 1"),
+    ("queen's gambit structure", "r2q1rk1/pp2bppp/2n1pn2/2pp4/3P1B2/2P1PN2/PP1N1PPP/R2QKB1R w KQ - 0 8"),
+    ("rook endgame", "8/5pk1/6p1/R7/5P2/6P1/r4K2/8 w - - 0 40"),
+    ("king's indian structure", "r1bq1rk1/pp2ppbp/2np1np1/8/2BNP3/2N1BP2/PPPQ2PP/R3K2R b KQ - 0 9"),
+    ("two knights endgame with pawns", "8/pp3k2/2n2p2/3p4/3P1N2/4PK2/PP6/8 w - - 0 30"),
+];
+
+/// Capacity of a std HashMap that has grown by single insertions to hold `len` entries: 7/8 of
+/// the bucket count (a power of two). A short search whose stores could push the map over it
+/// pays for one rehash of the whole table, which the unchanged engine does too (amortised
+/// growth); such a case is counted and not judged.
+fn growth_capacity(len: u64) -> u64 {
+    let mut buckets: u64 = 8;
+    loop {
+        let cap = buckets / 8 * 7;
+        if cap >= len {
+            return cap;
+        }
+        buckets *= 2;
+    }
+}
+
+/// One long-thinking searcher: fill stages (cumulative node budgets) and after each stage short
+/// searches of the same position and of a position two plies on, each bounded in nodes after the
+/// deadline and in CPU time per visited node. Returns (cases judged, cases not judged because a
+/// table growth step could fall into them, table entries after the last stage, costliest short
+/// search in us).
+pub fn big_state_point(rep: &Report, name: &str, fen: &str, stages: &[u64], only: Option<(usize, usize, u64)>) -> (u64, u64, u64, u64) {
+    crate::timer::verif::set_node_clock(Some(1));
+    let b = board(fen);
+    let mg = crate::eng::tl_mg();
+    // the position two plies on (first move, first reply): the next position of the same game
+    let next = {
+        let m = mg.generate_moves(&b);
+        match m.first() {
+            Some(m1) => {
+                let c = b.clone_with_move(m1);
+                match mg.generate_moves(&c).first() {
+                    Some(m2) => c.clone_with_move(m2),
+                    None => b,
+                }
+            }
+            None => b,
+        }
+    };
+    let budgets: [u64; 6] = [0, 1, 10, 100, 1000, 5000];
+    let stage_text = stages.iter().map(|n| n.to_string()).collect::<Vec<_>>().join(",");
+    let mut judged = 0u64;
+    let mut skipped = 0u64;
+    let mut entries_last = 0u64;
+    let mut worst = 0u64;
+    let mut s = match guard(Searcher::new) {
+        Ok(s) => s,
+        Err(_) => return (0, 0, 0, 0),
+    };
+    for (si, fill) in stages.iter().enumerate() {
+        if rep.violation_count.load(Ordering::Relaxed) >= 5 {
+            break;
+        }
+        let args0 = vec!["c07-big".to_string(), "--fen".into(), fen.to_string(), "--stages".into(), stage_text.clone(), "--stage".into(), si.to_string(), "--which".into(), "0".into(), "--budget".into(), "0".into()];
+        let _job = crate::watch::enter(format!("C07 big-state fen={} no-answer", fen), format!("{} ({:?}): a search with a budget of {} nodes did not answer after {} s of CPU time", name, fen, fill, crate::watch::LIMIT_S), args0.clone());
+        if guard(|| s.find_best_move(&b, 64, Some(Duration::from_millis(*fill)))).is_err() {
+            rep.violation(format!("C07 big-state fen={} fill panic", fen), format!("{} ({:?}): the long search (budget {} nodes) panicked", name, fen, fill), args0, J::Null);
+            return (judged, skipped, entries_last, worst);
+        }
+        drop(_job);
+        for (wi, target) in [&b, &next].into_iter().enumerate() {
+            for n in budgets {
+                if let Some((osi, owi, on)) = only {
+                    if osi != si || owi != wi || on != n {
+                        // the replay still runs every earlier short search (they are part of the history)
+                        if si > osi || (si == osi && (wi, n) > (owi, on)) {
+                            continue;
+                        }
+                    }
+                }
+                let args = vec!["c07-big".to_string(), "--fen".into(), fen.to_string(), "--stages".into(), stage_text.clone(), "--stage".into(), si.to_string(), "--which".into(), wi.to_string(), "--budget".into(), n.to_string()];
+                crate::crumb::set_owned(&args);
+                let _job = crate::watch::enter(format!("C07 big-state fen={} no-answer", fen), format!("{} ({:?}) after long thinks of {} nodes: a search with a budget of {} nodes did not answer after {} s of CPU time", name, fen, stage_text, n, crate::watch::LIMIT_S), args.clone());
+                let len_before = s.verif_tt_entries().len() as u64;
+                let c0 = crate::cputime::thread_cpu();
+                let r = guard(|| {
+                    s.find_best_move(target, 64, Some(Duration::from_millis(n)));
+                    s.verif_nodes()
+                });
+                let cpu_us = crate::cputime::thread_cpu().saturating_sub(c0).as_micros() as u64;
+                let visited = match r {
+                    Ok(v) => v,
+                    Err(e) => {
+                        rep.violation(format!("C07 big-state fen={} panic", fen), format!("{} ({:?}) after long thinks: budget {}: {}", name, fen, n, e), args, J::Null);
+                        return (judged, skipped, entries_last, worst);
+                    }
+                };
+                let overrun = visited.saturating_sub(n.max(1));
+                if overrun > OVERRUN_LIMIT {
+                    rep.violation(
+                        format!("C07 big-state fen={} stage={} which={} budget={} overrun", fen, si, wi, n),
+                        format!("{} ({:?}), searcher that has thought for {} nodes (table of {} entries): a search of {} with its deadline at node {} visited {} further nodes before answering (limit {})", name, fen, stage_text, len_before, if wi == 0 { "the same position" } else { "the position two plies on" }, n, overrun, OVERRUN_LIMIT),
+                        args.clone(),
+                        J::Null,
+                    );
+                }
+                let could_grow = len_before + visited + 1 > growth_capacity(len_before.max(1));
+                if could_grow {
+                    skipped += 1;
+                } else {
+                    judged += 1;
+                    worst = worst.max(cpu_us);
+                    let mut too_costly = cpu_us > WORK_PER_NODE_US * visited.max(1) + WORK_BASE_MS * 1000;
+                    if too_costly && only.is_none() {
+                        // measured again from the start (a fresh searcher, the same thinks, the same
+                        // short searches up to this one), twice: a loaded or virtualised host can
+                        // inflate one CPU measurement, work that is really there costs its time in every run
+                        for _ in 0..2 {
+                            let tmp = Report::new("C07", "quick", 0);
+                            big_state_point(&tmp, name, fen, &stages[..=si], Some((si, wi, n)));
+                            let again = tmp.violations.lock().unwrap().iter().any(|v| v.sig.ends_with(" work"));
+                            if !again {
+                                too_costly = false;
+                                break;
+                            }
+                        }
+                        crate::timer::verif::set_node_clock(Some(1));
+                    }
+                    if too_costly {
+                        rep.violation(
+                            format!("C07 big-state fen={} stage={} which={} budget={} work", fen, si, wi, n),
+                            format!(
+                                "{} ({:?}), searcher that has thought for {} nodes (table of {} entries): a search of {} with its deadline at node {} visited {} nodes and consumed {} us of CPU (bound: {} us per visited node + {} ms): work that grows with what earlier searches left behind is done without looking at the clock; a fresh searcher answers the same go in microseconds",
+                                name, fen, stage_text, len_before, if wi == 0 { "the same position" } else { "the position two plies on" }, n, visited, cpu_us, WORK_PER_NODE_US, WORK_BASE_MS
+                            ),
+                            args.clone(),
+                            J::obj().set("cpu_us", cpu_us).set("nodes_visited", visited).set("table_entries", len_before),
+                        );
+                    }
+                }
+            }
+        }
+        entries_last = s.verif_tt_entries().len() as u64;
+    }
+    (judged, skipped, entries_last, worst)
+}
+
+pub fn replay_big(fen: &str, stages: &str, stage: usize, which: usize, budget: u64) -> i32 {
+    let rep = Report::new("C07", "quick", 0);
+    let st: Vec<u64> = stages.split(',').filter_map(|x| x.parse().ok()).collect();
+    big_state_point(&rep, "replay", fen, &st, Some((stage, which, budget)));
+    let v = rep.violations.lock().unwrap();
+    for x in v.iter() {
+        println!("REPLAY-VIOLATION {} :: {}", x.sig, x.text);
+    }
+    if v.is_empty() {
+        println!("REPLAY-OK C07 big-state {}", fen);
+        0
+    } else {
+        1
+    }
+}
 
 // ---------------------------------------------------------------------------------------------
 // C07, command level: `go` histories through the real command handler. The sweeps above call
@@ -917,6 +1113,25 @@ pub fn run(which: &'static str, tier: &str, seed: u64, out: &str, engine_plain: 
             }
         }
     }
+    let mut big_part = J::Null;
+    if which == "C07" && !rep.saturated() {
+        let stages: Vec<u64> = if thorough { vec![300_000, 1_500_000, 6_000_000, 24_000_000] } else { vec![200_000, 1_000_000, 4_000_000] };
+        let res: Vec<(u64, u64, u64, u64)> = par_map(&BIG_STATE_POSITIONS.to_vec(), |(name, fen)| big_state_point(&rep, name, fen, &stages, None));
+        let j: u64 = res.iter().map(|r| r.0).sum();
+        let sk: u64 = res.iter().map(|r| r.1).sum();
+        evaluations += j + sk;
+        nontrivial += j;
+        eprintln!("[C07] long-thinking searchers: {} short searches judged, {} not judged, largest table {} entries, costliest short search {} us ({:.1}s)", j, sk, res.iter().map(|r| r.2).max().unwrap_or(0), res.iter().map(|r| r.3).max().unwrap_or(0), rep.elapsed());
+        big_part = J::obj()
+            .set("positions", BIG_STATE_POSITIONS.len())
+            .set("long_think_budgets_nodes", J::Arr(stages.iter().map(|n| J::from(*n)).collect()))
+            .set("short_search_budgets_nodes", "0, 1, 10, 100, 1000, 5000, of the same position and of the position two plies on, after every long think")
+            .set("short_searches_judged", j)
+            .set("not_judged_because_the_tables_storage_could_grow_during_the_search", sk)
+            .set("table_entries_after_the_last_long_think", J::Arr(res.iter().map(|r| J::from(r.2)).collect()))
+            .set("costliest_short_search_cpu_us", res.iter().map(|r| r.3).max().unwrap_or(0))
+            .set("rule", "one searcher per position thinks for the listed node budgets in turn (no reset between them: one long game); after each think every short search must answer within its budget + the overrun limit in nodes and within the CPU bound per visited node, whatever the searcher holds by then");
+    }
     let mut real_part = J::Null;
     if which == "C07" && !rep.saturated() {
         if let Some(exe) = engine_plain {
@@ -938,6 +1153,7 @@ pub fn run(which: &'static str, tier: &str, seed: u64, out: &str, engine_plain: 
         .set("distinct_nontrivial", nontrivial)
         .set("go_command_histories", go_part)
         .set("real_clock", real_part)
+        .set("long_thinking_searchers", big_part)
         .set("rule", "a case = (position, depth, deadline node N) [C06 also (N1, N2)]: fresh Searcher, search interrupted exactly at node N under the node clock; non-trivial = the deadline actually fell inside the search; the budgeted go commands of the command-level histories count as cases too")
         .set("overrun_limit_nodes", OVERRUN_LIMIT)
         .set("work_bound", format!("every interrupted search of the C07 sweeps: CPU time of its thread <= {} us x nodes visited + {} ms", WORK_PER_NODE_US, WORK_BASE_MS))
